@@ -203,6 +203,10 @@ func TestStatements(t *testing.T) {
 	expect(t, `local t = {} t.a, t.b = 1, 2 return {t.a, t.b}`, ints(1, 2))
 	expect(t, `local t = {{}} t[1].x = 5 return t[1].x`, resp.Int(5))
 	expect(t, `local t = {} local i = 1 i, t[i] = i + 1, 20 return {i, t[1], t[2] == nil}`, ints(2, 20, 1))
+	expect(t, `local a, a = 1, 2 return a`, resp.Int(2)) // two distinct locals, the later one is visible
+	expectUnsupported(t, `local a a, a = 1, 2 return a`) // order of assignment is undefined
+	expectUnsupported(t, `local t = {} t.x, t["x"] = 1, 2 return t.x`)
+	expect(t, `local t, u = {}, {} t.x, u.x = 1, 2 return {t.x, u.x}`, ints(1, 2))
 	expect(t, `local t = {} t[1.0] = "a" return t[1]`, resp.Bulk("a"))
 	expect(t, `local t = {} t[1] = "a" t["1"] = "b" return {t[1], t["1"]}`, bulks("a", "b"))
 	expect(t, `local t = {} t[true] = 1 t[false] = 2 return {t[true], t[false]}`, ints(1, 2))
